@@ -212,16 +212,9 @@ def run_eventuals(b):
 
 
 # ---------------------------------------------------------------- PING / PONG inside messages
-
-def banana_pair():
-    """a real Broker as receiver of raw banana bytes; returns (broker, transport)"""
-    set_mode(True)
-    b = broker.Broker(TubRef("x"))
-    tr = FT()
-    b.transport = tr
-    with E.quiet():
-        b.connectionMade()
-    return b, tr
+import struct
+from foolscap import storage
+from foolscap.tokens import STRING, FLOAT, LONGINT, LONGNEG
 
 
 def int2b128_bytes(n):
@@ -231,4 +224,98 @@ def int2b128_bytes(n):
 
 
 def ping_bytes(n, tok=PING):
+    """what sendPING / sendPONG write for number n (computed with the real int2b128)"""
     return (int2b128_bytes(n) if n else b"") + tok
+
+
+def real_send(which, n):
+    """bytes written by the real Banana.sendPING / sendPONG"""
+    set_mode(True)
+    b = storage.StorageBanana()
+    tr = FT()
+    b.transport = tr
+    getattr(b, which)(n)
+    restore()
+    return b"".join(d for (_, d) in tr.out)
+
+
+def serialize(obj):
+    set_mode(True)
+    r = []
+    with E.quiet():
+        storage.serialize(obj).addBoth(r.append)
+        E.turn()
+    restore()
+    if not r or not isinstance(r[0], bytes):
+        raise RuntimeError("cannot serialize %r: %r" % (obj, r))
+    return r[0]
+
+
+def tokenize(data):
+    """-> list of (start, end, header, typebyte int); bodies of STRING/LONGINT/LONGNEG/FLOAT belong to their token"""
+    out = []
+    i = 0
+    while i < len(data):
+        j = i
+        while data[j] < 0x80:
+            j += 1
+        header = ban.b1282int(data[i:j]) if j > i else 0
+        ty = data[j:j + 1]
+        end = j + 1
+        if ty in (STRING, LONGINT, LONGNEG):
+            end += header
+        elif ty == FLOAT:
+            end += 8
+        out.append((i, end, header, ty[0]))
+        i = end
+    assert i == len(data)
+    return out
+
+
+def decode(data, chunks=None):
+    """feed bytes to a real receiving Banana (storage flavour, any object accepted).
+    -> dict(status, obj, written, exc)"""
+    set_mode(True)
+    b = storage.StorageBanana()
+    tr = FT()
+    b.transport = tr
+    res = dict(status="nothing", obj=None, exc=None)
+    with E.quiet():
+        b.connectionMade()
+        d = b.prepare()
+        got = []
+        d.addBoth(got.append)
+        try:
+            pos = 0
+            for n in (chunks or [len(data)]):
+                b.dataReceived(data[pos:pos + n])
+                pos += n
+            if pos < len(data):
+                b.dataReceived(data[pos:])
+            E.turn()
+        except Exception as e:
+            res["exc"] = "%s: %s" % (type(e).__name__, str(e)[:100])
+    if b.violation:
+        res["status"] = "violation"
+        res["exc"] = str(b.violation.value)[:100]
+    elif res["exc"]:
+        res["status"] = "error"
+    elif got:
+        res["status"] = "ok"
+        res["obj"] = got[0]
+    res["written"] = b"".join(x for (_, x) in tr.out)
+    res["left"] = len(E.clock.getDelayedCalls())
+    restore()
+    return res
+
+
+def canon(o):
+    if isinstance(o, (list, tuple)):
+        return (type(o).__name__, [canon(x) for x in o])
+    if isinstance(o, (set, frozenset)):
+        return (type(o).__name__, sorted((canon(x) for x in o), key=repr))
+    if isinstance(o, dict):
+        return ("dict", sorted(((canon(k), canon(v)) for k, v in o.items()), key=repr))
+    if isinstance(o, float):
+        return ("float", struct.pack("!d", o).hex())
+    return (type(o).__name__, o)
